@@ -5,6 +5,26 @@ import json, os, subprocess, sys
 
 VERIF = os.path.dirname(os.path.dirname(os.path.abspath(__file__)))
 
+# additions of the second round of independently seeded changes (rule families, see DESIGN 11.1)
+EXTRA = {
+ "C01": "; trigger-decision shape refiled as a necessary condition (no `not triggered` before every rule was consulted); the refreshed token object must be an allocation of the refresh helper",
+ "C03": "; transport-wrapper rule over own http.RoundTripper implementations (body-consuming dump applied to the forwarded request, no write to the incoming request's headers/fields); TLS pool insertion only after the load can no longer fail",
+ "C04": "; transport-wrapper rule over own http.RoundTripper implementations (credentials and form of the token request reach the IdP unchanged)",
+ "C05": "; every object that can be the logout answer carries the expiring cookie",
+ "C07": "; `not triggered` only behind the exhaustion of the rule loop",
+ "C08": "; who-may-write rule on Config.Chains / FilterChain.Filters / FilterChainMatch; the unmatched tail is entered only from the chain loop's exhaustion edge",
+ "C09": "; response header lists never share the backing array of a package-level slice; discovery cache keyed by the fetched URI",
+ "C10": "; store constructors called only from the factory's PreRun; HSETNX of the creation time on every successful path of both setters and never HDEL'ed",
+ "C11": "; expiry-test shape refiled (a required token's expiry cannot be shadowed)",
+ "C12": "; creation-time stamping on every successful path (no replica-local `already stamped` shortcut)",
+ "C13": "; discovery cache keyed by the fetched URI",
+ "C14": "; whole-object taint sources (an object with secret fields handed to a formatter)",
+ "C15": "; own RoundTripper implementations are crash roots; the value result of a (value, error) call passed to a dependency function counts as a dereference; results of dependency interfaces follow the err == nil convention",
+ "C18": "; loop-carried-argument rule on the store constructors' timeouts; handler built per check from the matched filter",
+ "C19": "; latch rule on the watch decision; provenance rule on the handler's configuration (constructor parameter or its own proto.Clone)",
+ "C20": "; TLS pool insertion only after the load can no longer fail",
+}
+
 # id -> (technique, level text, level note)
 CLAIMS = {
  "C01": ("SSA branch-fact (must) dataflow + CFG reachability + callee summaries: who-may-write-OK, allow-site justification, static fault enumeration over every error/absent result, server-loop rule, store-level liveness rules (C10.R1–R3 filed as C01.R6)",
@@ -90,7 +110,7 @@ def main():
                 "engine": "authcheck",
                 "level_claimed": {"category": "other", "text": text, "design_ref": "DESIGN.md section 4, " + pid},
                 "level_note": note,
-                "technique": "static analysis: " + tech,
+                "technique": "static analysis: " + tech + EXTRA.get(pid, "") + "; a reported violation is re-evaluated on source-inlined normal forms of the tree (freshly extracted helpers inlined via go/packages overlay, type-checked again), which can acquit but never convict",
             })
         else:
             na.append({"property_id": pid, "reason": na_reasons.get(pid, NOT_YET)})
